@@ -171,7 +171,32 @@ func converterFlowQ(d *declInfo, src types.Object, dstOwners map[string]bool, qu
 			rel.add(key, f)
 		}
 		// enclosing switch tags, if conditions and range sources contribute control/data dependence
-		for _, x := range enclosing(d.fd.Body, at) {
+		chainAt := enclosing(d.fd.Body, at)
+		// … and so do earlier guard clauses that leave the function with its result: what follows
+		// them runs only when their condition fails
+		for i, x := range chainAt {
+			blk, isBlk := x.(*ast.BlockStmt)
+			if !isBlk || i+1 >= len(chainAt) {
+				continue
+			}
+			for _, st := range blk.List {
+				if st == chainAt[i+1] || st.Pos() >= at.Pos() {
+					break
+				}
+				ifs, isIf := st.(*ast.IfStmt)
+				if !isIf || ifs.Else != nil || len(ifs.Body.List) == 0 {
+					continue
+				}
+				rs, isRet := ifs.Body.List[len(ifs.Body.List)-1].(*ast.ReturnStmt)
+				if !isRet || len(rs.Results) == 0 || isNilIdent(d.pkg, rs.Results[0]) {
+					continue // error exits (nil result) end the conversion as a whole
+				}
+				for f := range srcFieldsOf(d, ifs.Cond, src, locals) {
+					rel.add(key, f)
+				}
+			}
+		}
+		for _, x := range chainAt {
 			switch s := x.(type) {
 			case *ast.SwitchStmt:
 				if s.Tag != nil {
@@ -364,6 +389,9 @@ func spdxFlow(c *Ctx, prop string) {
 			rd := readerFlow(pn, p, nodeOwners, map[string]string{"Url": "ExternalReferences", "Type": "ExternalReferences", "Comment": "ExternalReferences", "IsOrg": "", "Email": ""})
 			c.info("SPDX package writer flow: %d native fields; reader flow: %d node fields", len(wr), len(rd))
 			roundTripPaths(c, R, "spdx-package", spdxPackageAttrs, wr, rd)
+			// Name and ExternalReferences are left out: the relation merges Person.Name into Name and
+			// reads ExternalReferences through the node under construction, which depends on everything
+			attributeIndependence(c, "spdx-package", spdxPackageAttrs, wr, rd, map[string]bool{"Id": true, "Name": true, "ExternalReferences": true})
 		} else {
 			c.undecided(R, "spdx-package#anchor", "-", "packageToNode parameter not found")
 		}
